@@ -1,25 +1,33 @@
 PROP = {
-    "thm": "Umya.Thm.C11",
+    "thm": ["Umya.Thm.C11", "Umya.Thm.C11Save"],
     "harness": "c11",
     "level": "proof",
     "stateful": True,
     "case_timeout": 180,
     "timeout_quick": 900,
     "timeout_thorough": 3400,
-    "level_text": "Proof on a model of lazy loading and of the per-sheet branch of the writer (package skeleton level). A sheet is raw (bytes + "
-                  "relationship closure) or deserialized; the decoder, the edits, what a sheet registers in the workbook-level tables and what its "
-                  "serialiser asks the writer manager for are parameters, so the theorems hold for every decoder. Proved for ALL histories of "
-                  "read_sheet / get_sheet_mut / get_sheet_by_name_mut / read_sheet_collection / edits / new_sheet / remove_sheet(_by_name) / "
-                  "set_sheet_name / workbook-level insert-remove: the eager workbook is the lazy one with everything deserialized, same replies, every "
-                  "deserialized sheet equal (C11_view*), order independence of accesses, the tables a raw sheet indexes into are never changed in "
-                  "memory and are prefixes of the written ones (C11_tables_only_grow, C11_tables_indices_stable), part names unique "
-                  "(C11_save_names_unique), every position has exactly its sheet part with the raw bytes or the serialised in-memory content and "
-                  "workbook.xml lists the sheets in order (C11_save_sheet_parts), every relationship of every relationships part resolves (C11_save_resolves). The repaired defect is refuted on a decided witness "
-                  "(C11_old_rels_fails, C11_old_rels_lost) and the fixed writer is decided on the same witness (C11_new_rels_witness). The tie: corpus and "
-                  "generated files opened lazily and eagerly, every request applied to both; raw/deserialized flags, names, edited cells and the complete "
-                  "per-sheet package skeleton of every save (part names, every relationships part with resolved targets) are compared line by line "
-                  "with the model; an independent skeleton validator, byte comparison of copied sheets and their closure, and reload-and-compare "
-                  "against the eager workbook's save are the implementation-level oracle.",
+    "level_text": "Proof on a model of lazy loading, of the reader's side of a raw sheet (Pkg / openRaw / lazyOpen: bytes of the sheet part and the closure of its "
+                  "relationship parts, children first, with the bytes of every target) and of the per-sheet branch of the writer (package skeleton level). The decoder, "
+                  "the edits, what a sheet registers in the workbook-level tables and what its serialiser asks the writer manager for are parameters, so the theorems hold "
+                  "for every decoder. Proved for ALL histories of read_sheet / get_sheet_mut / get_sheet_by_name_mut / read_sheet_collection / edits / new_sheet / "
+                  "remove_sheet(_by_name) / set_sheet_name / workbook-level insert-remove: view equivalence lazy/eager (C11_view*), order independence, tables only grow "
+                  "(C11_tables_only_grow, C11_tables_indices_stable); the package-consistency invariant (decidable: every still-raw sheet holds exactly what the reader records "
+                  "for a sheet part of the opened package, closure names hygienic, tables those of the package) is established by lazyOpen and preserved by every operation "
+                  "(C11_lazyOpen_consistent, C11_consistent_step, C11_consistent_reachable); from it the FULL C11_save: unique names, exact sheet part per position, workbook order, "
+                  "every relationship resolves, every relationships part sits next to a part, and for every still-raw sheet at position p: sheet{p}.xml holds the bytes the package "
+                  "has under the part it was read from, _rels/sheet{p}.xml.rels is exactly that part's relationships part (absent iff the package has none / an empty one), every "
+                  "other relationships part and every non-external target of its closure is in the saved package under its original name with the package's content (first "
+                  "writer wins is harmless between raw sheets: content under a closure name is a function of the package and the name). The closure the reader records is complete "
+                  "(C11_closure_complete). add_file_at_* picks the smallest index that names no part present, never a name of a raw closure, and the relationships part next to the "
+                  "new part is free (C11_alloc_no_clash, C11_loaded_rels_fresh); a fixed-name request (media) for a name that is there is dropped (C11_fixed_name_taken). An edit after "
+                  "any history is in the saved sheet part (C11_edits_present). For every decoder satisfying the explicit locality predicate DecoderLocal a still-raw sheet decodes in "
+                  "the saved package to what its part decodes to in the opened package (C11_untouched_decodes). The repaired defect is refuted on a decided witness (C11_old_rels_fails, "
+                  "C11_old_rels_lost) and the fixed writer decided on it (C11_new_rels_witness). The tie: corpus and generated files (now also with one picture shared by several sheets: "
+                  "overlapping closures) opened lazily and eagerly, every request applied to both; the reader model lazyOpen is run on the harness' description of the zip and compared "
+                  "with the harness' own closure computation (open=1); after EVERY state-changing request the raw state of the implementation (hook verif_raw_state: part names, "
+                  "hashes of the bytes kept) is compared with the model's state (same=1) and `consistent` is evaluated on it by the model and, independently, by the harness "
+                  "(oracle invariant-broken); raw/deserialized flags, names, edited cells and the complete per-sheet package skeleton of every save are compared line by line with "
+                  "the model; skeleton validator, byte comparison of copied sheets and their closure, reload-and-compare against the eager save are the implementation-level oracle.",
     "level_note": "Trusted: Lean kernel + 3 standard axioms; hand model as exercised by the correspondence stream; part names are parsed into a "
                   "structured form by the driver (canonical digits; two texts equal iff the structured names are); the serialiser's request profile of a "
                   "deserialized sheet is measured on the eager workbook's own save and fed to the model (it predicts the names under a different "
@@ -27,34 +35,49 @@ PROP = {
                   "workbook's save shows as well are counted as inherited and not charged to C11.",
     "expect_theorems": ["C11_view", "C11_view_replies", "C11_view_state", "C11_access_loads", "C11_order_independent",
                         "C11_tables_only_grow", "C11_tables_indices_stable",
-                        "C11_save_names_unique", "C11_save_sheet_parts", "C11_save_resolves", "C11_save_partial",
+                        "C11_save_names_unique", "C11_save_sheet_parts", "C11_save_resolves",
+                        "C11_lazyOpen_consistent", "C11_consistent_step", "C11_consistent_reachable", "C11_consistent_iff", "C11_closure_complete",
+                        "C11_save", "C11_alloc_no_clash", "C11_fixed_name_taken", "C11_loaded_rels_fresh", "C11_edits_present", "C11_untouched_decodes",
                         "C11_old_rels_fails", "C11_old_rels_lost", "C11_new_rels_witness"],
     "rule": "files: 8 corpus files (quick) / the whole corpus (thorough) + library-generated multi-sheet files (comments, tables, merges, external "
             "hyperlinks, charts whose series live on another sheet), each also with its sheet parts renamed so that part number != position; "
             "per file 40 (quick) / 24-40 (thorough, all 55 corpus files + 20 generated) histories: ALL ordered subsets of sheets to materialise for files with <= 4 sheets, random orders "
             "for more; accesses through read / getmut / byname / edit; interleaved style edits, new_sheet, remove_sheet(_by_name), rename, workbook-level "
-            "insert/remove rows, read_sheet_collection; saves in the middle and at the end; dumps of every sheet; boundary indices. "
+            "insert/remove rows, read_sheet_collection; saves in the middle and at the end; dumps of every sheet; boundary indices; an `inv` request (state of the "
+            "implementation through the hook -> model: same state? package-consistent?) after every request that may change the state; generated files carry with probability 1/2 one "
+            "picture on several sheets (closures overlapping on xl/media/shared.png). "
             "non-trivial = the request changed or observed state (ok replies, dumps of deserialized sheets, saves); distinct = distinct request line "
             "(reset and save lines carry the file / profile description). The witness of the repaired defect is replayed first on every run.",
     "trusted_base": TB_COMMON + [
         "zip + quick-xml (harness-side skeleton reader of the written package, independent of the crate's reader)",
         "Debug formatting of the crate's public structures as the per-section sheet dump (sorted where a HashMap is involved)",
         "driver-side parser/printer of part names (structured PName <-> text)",
+        "hook Spreadsheet::verif_raw_state (cfg(umya_verif), add-only): reports the raw sheets' part names and FNV-64 hashes of the bytes kept; bytes are identified by hash",
     ],
     "assumptions": [
-        "no part in a raw sheet's closure, and no fixed-name part requested by a serialiser, is named like a sheet part (RawsOk / profile hypothesis of C11_save_sheet_parts)",
+        "pkgOk (decidable hypothesis on the INPUT package, evaluated per file by the model and by the harness: counter reset.pkgok): in the closure of every sheet part no "
+        "relationship points to a part named like xl/worksheets/sheet{n}.xml, like a relationships part, like a workbook-level part or back at the sheet part, and every "
+        "relationships part of the closure belongs to the sheet part or to a target (true of every closure the reader can record; kept as a checked hypothesis, not proved from readClosure)",
+        "SheetWritable on the saved state (hypothesis of C11_save_resolves / C11_save): no zero-length related part in a raw closure (RawFile::write_to does not copy empty data, the "
+        "relationship would dangle: harness flag `empty`), no target a serialiser names but does not write (C02's)",
+        "profile hypothesis: a serialiser asks for no FIXED name that looks like a sheet part or a relationships part (media names)",
+        "workbook-level parts (content types, workbook.xml, styles, shared strings, theme, docProps) are outside the model's writer: that no closure part carries such a name is part of pkgOk, "
+        "but that those writers are then unaffected is not a theorem",
+        "the opened package is a function from names to parts (getPart = the entry ZipArchive::by_name returns); duplicate zip entries are outside",
         "sheet parts of the file read live in xl/worksheets/ (relative targets keep their meaning next to the new name)",
-        "decode is a function of the raw sheet and the tables at load time; the model's theorems are stated for every such function",
+        "bytes are identities (cid); in the tie FNV-64 of the bytes",
+        "DecoderLocal (explicit predicate, hypothesis of C11_untouched_decodes): the sheet decoder depends only on the sheet part, the relationships part next to it, the parts reachable "
+        "through relationships, and a prefix of each workbook-level table; NOT discharged for Umya.Spec.Sml.decodeSheet (checked by reload-and-compare instead)",
     ],
     "partial_clauses": [
-        "C11_save_partial: proved for all histories are unique names, exact sheet parts per position, workbook order and 'every relationship resolves' (C11_save_resolves); "
-        "NOT proved for all histories: that the relationships part next to a copied sheet carries THAT sheet's relationships and every closure part keeps its original "
-        "content under the name used (needs the one-package consistency hypothesis), and relsHaveSource; these are decided on the witnesses and checked on every save of the "
-        "implementation by the harness (byte comparison of each copied sheet and its closure, walking both relationship graphs) and by the line-by-line skeleton comparison",
-        "'untouched sheets decode to the same content as in the original' is proved as: same bytes under sheet{position} (C11_save_sheet_parts) + tables are "
-        "prefixes (C11_tables_only_grow); that decoding depends on nothing else is the decoder's property (parameter) and is checked by reload-and-compare",
+        "C11_save is proved at full strength on the model for all histories (C11_save_partial is gone). What remains open around it: (a) DecoderLocal is a hypothesis, not proved for the "
+        "concrete independent decoder Spec.Sml.decodeSheet, so 'untouched sheets decode to the same content' rests, for that decoder, on the harness' reload-and-compare; (b) a "
+        "deserialized sheet that asks for a FIXED part name (media) already owned by a raw closure gets the part that is there (C11_fixed_name_taken states it; same collision exists "
+        "between two deserialized sheets in the eager workbook: inherited); (c) 'an accessed but unedited sheet has the same content' is serialise(decode(raw)) = C01-C06's round trip",
         "validity beyond the skeleton (XML content of generated parts, content types of workbook-level parts) is C02's; the harness validator checks content-type coverage, "
         "duplicate names, rIds and workbook.xml <-> workbook.xml.rels <-> sheet parts on every save, differentially against the eager save",
+        "the reader model (readClosure) takes fuel = number of parts + 1; that this suffices for every acyclic relationship graph is not proved (the theorems assume lazyOpen x = some b0, "
+        "i.e. that the open succeeded; a cyclic graph overflows the stack in the code)",
     ],
-    "technique": "Lean 4 proofs (simulation lazy/eager over all histories, find-or-append prefix lemmas, append-only writer manager) + stateful differential check lazy vs eager with an independent package-skeleton reader",
+    "technique": "Lean 4 proofs (simulation lazy/eager over all histories, package-consistency invariant by induction on the history, find-or-append prefix lemmas, append-only writer manager with content-aware extension relation) + stateful differential check lazy vs eager with an independent package-skeleton reader",
 }
